@@ -31,6 +31,7 @@ Leaf(n) == Item(n, NoA, NONE, FALSE, 1, <<>>)
 Defs == (IF "leaf" \in DefShapes THEN { <<Leaf(n)>> : n \in Nm } ELSE {})
         \cup (IF "attr" \in DefShapes THEN { <<Item(n, <<<<"p", "1">>>>, NONE, FALSE, 1, <<>>)>> : n \in Nm } ELSE {})
         \cup (IF "cls" \in DefShapes THEN { <<Item(n, <<Cls("e")>>, NONE, FALSE, 1, <<>>)>> : n \in Nm } ELSE {})
+        \cup (IF "impl" \in DefShapes THEN { <<Item("?", <<Cls("e"), <<"r", "n">>>>, NONE, FALSE, 1, <<>>)>> } ELSE {})      \* .e[r=n]: implicit name
         \cup (IF "text" \in DefShapes THEN { <<Item(n, NoA, "u", FALSE, 1, <<>>)>> : n \in Nm } ELSE {})
         \cup (IF "child" \in DefShapes THEN { <<Item(n, NoA, NONE, FALSE, 1, <<Leaf(c)>>)>> : n \in Nm, c \in Nm } ELSE {})
         \cup (IF "siblings" \in DefShapes THEN { <<Leaf(a), Leaf(b)>> : a \in Nm, b \in Nm } ELSE {})
@@ -58,7 +59,7 @@ RECURSIVE AttrText(_)
 AttrText(ms) == IF ms = <<>> THEN ""
                 ELSE (IF Head(ms)[1] = "class" THEN "." \o Head(ms)[2] ELSE "[" \o Head(ms)[1] \o "=" \o Head(ms)[2] \o "]") \o AttrText(Tail(ms))
 RECURSIVE Render(_)
-RenderItem(it) == it.n \o AttrText(it.attr) \o (IF it.text = NONE THEN "" ELSE "{" \o it.text \o "}")
+RenderItem(it) == (IF it.n = "?" THEN "" ELSE it.n) \o AttrText(it.attr) \o (IF it.text = NONE THEN "" ELSE "{" \o it.text \o "}")
                   \o (IF it.sc THEN "/" ELSE "") \o (IF it.rep > 1 THEN "*" \o ToString(it.rep) ELSE "")
                   \o (IF it.kids = <<>> THEN "" ELSE ">" \o Render(it.kids))
 Render(items) == IF items = <<>> THEN "" ELSE RenderItem(items[1]) \o (IF Len(items) > 1 THEN "+" \o Render(Tail(items)) ELSE "")
@@ -75,7 +76,8 @@ AddMention(attrs, m) == IF \E i \in 1..Len(attrs) : attrs[i][1] = m[1]
 RECURSIVE AddAttr(_, _)
 AddAttr(attrs, ms) == IF ms = <<>> THEN attrs ELSE AddAttr(AddMention(attrs, Head(ms)), Tail(ms))
 \* an entry keeps the raw mention list (resolve() concatenates lists; merge_attributes() runs once, afterwards)
-Entry(d, it) == [d |-> d, n |-> it.n, attrs |-> it.attr, text |-> it.text, sc |-> it.sc]
+\* an element without name gets the implicit name div here (no parent of the model asks for another one)
+Entry(d, it) == [d |-> d, n |-> IF it.n = "?" THEN "div" ELSE it.n, attrs |-> it.attr, text |-> it.text, sc |-> it.sc]
 Final(l) == [j \in 1..Len(l) |-> [l[j] EXCEPT !.attrs = AddAttr(<<>>, @)]]
 \* resolve(): own attributes then the alias' attributes - the other way round under output.reverseAttributes
 Merge(e, it) == [e EXCEPT !.attrs = IF it.attr = <<>> THEN @ ELSE IF reverse THEN it.attr \o @ ELSE @ \o it.attr, !.text = IF it.text # NONE THEN it.text ELSE @, !.sc = @ \/ it.sc]
